@@ -1236,23 +1236,25 @@ theorem bms_entries : bmsToOsu ∈ Generated.converters ∧ bmsToOsu.name = "BMS
   decide +kernel
 
 /-- **BMS reader = denotation on the abstract chart** (objects; from C04 `read_eq_denote`): whatever chart `read`
-returns holds, as multisets, exactly the hits and holds of the by-the-book denotation. -/
+returns holds, as multisets, exactly the hits and holds of the by-the-book denotation (stated over the shared lexer
+`denote`; C04 `denoteText_eq_denote` relates it to the specification's own text layer). -/
 theorem bms_read_abstract (lay : BMS.Layout) (hlay : BMS.LayoutOK lay) (lines : List BMS.Bytes) (d : BMS.Denotation)
     (hden : BMS.denote lay lines = some d)
     (hord : ∀ doc, BMS.parseDoc lines = .ok doc → BMS.LanesInOrder lay doc.notes)
     (hgc : gridCompatible (grid defaultMaxDiv) d.tempo = true) (c : BMS.Chart)
     (hr : BMS.read defaultGrid lay lines = .ok c) :
     (ofBMSRead c).hits.Perm (ofBMS d).hits ∧ (ofBMSRead c).holds.Perm (ofBMS d).holds := by
-  obtain ⟨hits, holds, _, hh, hl, hall⟩ := BMS.read_eq_denote lay hlay lines d hden hord hgc
-  obtain ⟨e1, e2, _⟩ := hall c hr
+  obtain ⟨c', hc', hh, hl, _⟩ := BMS.read_eq_denote_shared lay hlay lines d hden hord hgc
+  rw [hr] at hc'
+  cases hc'
   constructor
   · have := hh.map (fun h : BMS.DHit => (h.offset, (h.col : Int)))
     rw [List.map_map] at this
-    simp only [ofBMSRead, ofBMS, e1]
+    simp only [ofBMSRead, ofBMS]
     exact this
   · have := hl.map (fun h : BMS.DHold => (h.offset, (h.col : Int), h.length))
     rw [List.map_map] at this
-    simp only [ofBMSRead, ofBMS, e2]
+    simp only [ofBMSRead, ofBMS]
     exact this
 
 theorem objectsClose_ms_of_perm (a a' tgt : AChart) (hh : a.hits.Perm a'.hits) (hl : a.holds.Perm a'.holds)
